@@ -4,7 +4,7 @@ C08 — the Python part of the writer back-ends.
 Both writers inherit `EventHandler.write` (serializers/mixins.py, modelled in
 `Bind/Write.lean` as `WState.step`).  `XmlEventWriter`
 (serializers/writers/native.py) wraps `start_tag` / `end_tag` with the
-indentation bookkeeping (`current_level`, `pending_end_element`) and calls
+indentation bookkeeping (`current_level`, `pending_end_element`, `after_characters`) and calls
 `handler.ignorableWhitespace`; `LxmlEventWriter` / `LxmlTreeBuilder`
 (serializers/writers/lxml.py) build the tree un-indented and then apply
 `etree.indent`, modelled here as a transformation of the ElementTree infoset.
@@ -22,19 +22,28 @@ inductive ISax
   | ws (s : Str)              -- `handler.ignorableWhitespace(s)`
 deriving Repr, DecidableEq
 
-/-- `XmlEventWriter` : the inherited `EventHandler` state plus `current_level`, `pending_end_element` -/
+def Sax.isChars : Sax → Bool
+  | .chars _ => true
+  | _ => false
+
+/-- `XmlEventWriter` : the inherited `EventHandler` state plus `current_level`, `pending_end_element`
+and `after_characters` (character data was written since the last tag) -/
 structure IState where
   w : WState := {}
   out : List ISax := []
   level : Int := 0
   pendingEnd : Bool := false
+  afterChars : Bool := false
 
 /-- the inherited method (`super().start_tag`, `super().end_tag`, `add_attribute`, `set_data`):
-the SAX calls it makes are the ones `WState.step` appends -/
+the SAX calls it makes are the ones `WState.step` appends; every `characters` call goes through
+the overridden `set_characters`, which sets `after_characters` -/
 def IState.super (m : NsMap) (isDt : Str → Bool) (s : IState) (ev : Ev) : Except Err IState :=
   match s.w.step m isDt ev with
   | .error e => .error e
-  | .ok w' => .ok { s with w := w', out := s.out ++ (w'.out.drop s.w.out.length).map ISax.sax }
+  | .ok w' =>
+    let d := w'.out.drop s.w.out.length
+    .ok { s with w := w', out := s.out ++ d.map ISax.sax, afterChars := s.afterChars || d.any Sax.isChars }
 
 def IState.ignorableWs (s : IState) (c : Str) : IState := { s with out := s.out ++ [ISax.ws c] }
 
@@ -56,14 +65,15 @@ def IState.step (m : NsMap) (isDt : Str → Bool) (indent : Option Str) (s : ISt
       match indentOn indent with
       | none => .ok s
       | some i =>
-        let s := if s.level ≠ 0 then (s.ignorableWs ['\n']).ignorableWs (strMul i s.level) else s
-        .ok { s with level := s.level + 1, pendingEnd := false }
+        let s := if s.level ≠ 0 && !s.afterChars then (s.ignorableWs ['\n']).ignorableWs (strMul i s.level) else s
+        .ok { s with level := s.level + 1, pendingEnd := false, afterChars := false }
   | .end q =>
     match indentOn indent with
     | none => s.super m isDt (.end q)
     | some i =>
       let s := { s with level := s.level - 1 }
-      let s := if s.pendingEnd then (s.ignorableWs ['\n']).ignorableWs (strMul i s.level) else s
+      let s := if s.pendingEnd && !s.afterChars then (s.ignorableWs ['\n']).ignorableWs (strMul i s.level) else s
+      let s := { s with afterChars := false }
       match s.super m isDt (.end q) with
       | .error e => .error e
       | .ok s =>
@@ -181,34 +191,38 @@ structure NState where
   emitted : List Sax := []
   buf : Str := []
   prevOpen : Bool := false
-  /-- a non-whitespace run was seen anywhere but as the whole content of a leaf element -/
+  depth : Int := 0
+  /-- a `characters` call was made outside every element (not a document) -/
   bad : Bool := false
 
 def NState.flush (e : Env) (n : NState) (nextClose : Bool) : NState :=
   if n.buf.isEmpty then n
-  else if n.buf.all e.isSpace then
-    (if n.prevOpen && nextClose then { n with emitted := n.emitted ++ [Sax.chars n.buf], buf := [] }
-     else { n with buf := [] })
-  else { n with emitted := n.emitted ++ [Sax.chars n.buf], buf := [],
-                bad := n.bad || !(n.prevOpen && nextClose) }
+  else if n.buf.all e.isSpace && !(n.prevOpen && nextClose) then { n with buf := [] }
+  else { n with emitted := n.emitted ++ [Sax.chars n.buf], buf := [] }
 
 def NState.feed (e : Env) (n : NState) : ISax → NState
   | .ws s => { n with buf := n.buf ++ s }
-  | .sax (.chars s) => { n with buf := n.buf ++ s }
+  | .sax (.chars s) => { n with buf := n.buf ++ s, bad := n.bad || n.depth == 0 }
   | .sax (.open q a) =>
     let n := n.flush e false
-    { n with emitted := n.emitted ++ [Sax.open q a], prevOpen := true }
+    { n with emitted := n.emitted ++ [Sax.open q a], prevOpen := true, depth := n.depth + 1 }
   | .sax (.close q) =>
     let n := n.flush e true
-    { n with emitted := n.emitted ++ [Sax.close q], prevOpen := false }
+    { n with emitted := n.emitted ++ [Sax.close q], prevOpen := false, depth := n.depth - 1 }
 
 def normState (e : Env) (xs : List ISax) : NState := xs.foldl (NState.feed e) {}
 
 /-- the layout-insensitive normal form (`ignorableWhitespace` content read as character data) -/
 def layoutNorm (e : Env) (xs : List ISax) : List Sax := ((normState e xs).flush e false).emitted
 
-/-- no element has both (non-whitespace) character data and child elements, and no tails -/
-def mixedFree (e : Env) (xs : List Sax) : Bool :=
-  !((normState e (xs.map ISax.sax)).flush e false).bad
+/-- all character data is inside an element: the depth is not 0 at any `characters` call -/
+def charsInsideFrom : Int → List Sax → Bool
+  | _, [] => true
+  | d, .open _ _ :: r => charsInsideFrom (d + 1) r
+  | d, .close _ :: r => charsInsideFrom (d - 1) r
+  | d, .chars _ :: r => d != 0 && charsInsideFrom d r
+
+/-- what every call stream that denotes a document satisfies -/
+def charsInside (xs : List Sax) : Bool := charsInsideFrom 0 xs
 
 end Xs.Backends
